@@ -136,7 +136,14 @@ pub fn process(ctx: &mut Ctx, text: &str) -> Result<(String, Vec<Value>), (Strin
         }
         let start_line = gen_line;
         let res: Result<(String, Value), String> = match blk.kind.as_str() {
+            "include" => {
+                let p = format!("{}/{}", ctx.root, blk.args.first().cloned().unwrap_or_default());
+                std::fs::read_to_string(&p)
+                    .map(|t| (t, json!({"item": format!("include {p}")})))
+                    .map_err(|e| format!("cannot include {p}: {e}"))
+            }
             "item" => crate::extract::extract_item(ctx, &blk),
+            "trait" => crate::extract::extract_trait(ctx, &blk),
             "fn" => crate::extract::extract_fn(ctx, &blk),
             "skeleton" => crate::skeleton::skeleton_fn(ctx, &blk),
             "lift" => crate::lift::lift_fn(ctx, &blk),
